@@ -70,3 +70,53 @@ Definition table_complete (t : list opentry) : bool :=
   forallb (fun op => forallb (fun ks => Nat.eqb (count_entries t op ks) 1) unary_kinds) unary_ops &&
   forallb (fun op => forallb (fun ks => Nat.eqb (count_entries t op ks) 1) binary_kinds) binary_ops &&
   Nat.eqb (List.length t) (List.length unary_ops * List.length unary_kinds + List.length binary_ops * List.length binary_kinds).
+
+(* ---------------------------------------------------------------------------------------------- *)
+(* C18: arity table and the bind_first law *)
+Definition member_quals : list string :=
+  let cv := [""; "const"; "volatile"; "const volatile"] in
+  let rf := [""; "&"; "&&"] in
+  let ne := [""; "noexcept"] in
+  flat_map (fun n => flat_map (fun r => map (fun c =>
+     let parts := filter (fun s => negb (String.eqb s "")) [c; r; n] in
+     String.concat " " parts) cv) rf) ne.
+
+Definition has_entry (t : list arity_entry) (k q : string) (f : aform) : bool :=
+  Nat.eqb (List.length (filter (fun e => String.eqb (ar_kind e) k && String.eqb (ar_quals e) q) t)) 1 &&
+  forallb (fun e => if String.eqb (ar_kind e) k && String.eqb (ar_quals e) q then aform_eqb (ar_formula e) f else true) t.
+
+Definition arity_complete (t : list arity_entry) : bool :=
+  forallb (fun q => has_entry t "member" q FN1) member_quals &&
+  has_entry t "fnptr" "" FN && has_entry t "fnptr" "noexcept" FN &&
+  has_entry t "generic" "" FCallOpMinus1 &&
+  Nat.eqb (List.length t) (List.length member_quals + 3).
+
+(* std::bind as assumed from the standard: bound values are passed as they are, placeholder _n is replaced by the
+   n-th call argument *)
+Section Bind.
+  Local Open Scope list_scope.
+  Variable V : Type.
+  Variable dflt : V.
+  Inductive barg := BVal (v : V) | BPh (n : nat).
+  Definition resolve (emitted : list V) (a : barg) : V :=
+    match a with BVal v => v | BPh n => nth (n - 1) emitted dflt end.
+  (* what bind_first builds: the bound values, then placeholders Is + offset for Is < arity - |bound| *)
+  Definition bind_first_args (offset arity : nat) (bound : list V) : list barg :=
+    map BVal bound ++ map (fun i => BPh (i + offset)) (seq 0 (arity - List.length bound)).
+
+  Lemma firstn_as_map (l : list V) : forall k, k <= List.length l -> map (fun i => nth i l dflt) (seq 0 k) = firstn k l.
+  Proof.
+    induction l as [|x r IH]; intros [|k] Hk; cbn in *; try reflexivity; try lia.
+    f_equal. rewrite <- seq_shift, map_map. apply IH. lia.
+  Qed.
+
+  (* the callable receives the bound values followed by exactly the first (arity - |bound|) emitted values, in order *)
+  Theorem bind_first_law arity bound emitted :
+    arity - List.length bound <= List.length emitted ->
+    map (resolve emitted) (bind_first_args 1 arity bound) = bound ++ firstn (arity - List.length bound) emitted.
+  Proof.
+    intros H. unfold bind_first_args. rewrite map_app, !map_map. f_equal.
+    - cbn [resolve]. apply map_id.
+    - cbn [resolve]. rewrite <- firstn_as_map by exact H. apply map_ext. intros i. f_equal. lia.
+  Qed.
+End Bind.
